@@ -244,7 +244,7 @@ def c03_selectors(ngap: int, ctx: int, n: int, t0: int, t1: int, t2: int, t3: in
   gaps = [0] + [rt.pick(g, ngap) for g in (g1, g2, g3, g4)[:n - 1]]
   with rt.native():
     world.fresh()
-    gap_txt = ['', ' ', '\t ']
+    gap_txt = ['', ' ', '\t', '\\\n']        # nothing / space / TAB / backslash-newline continuation
     sel = ''.join(gap_txt[g] + SEL_TOK[t] for g, t in zip(gaps, toks))
     joined = ''.join(SEL_TOK[t] for t in toks)
     tight = all(g == 0 for g in gaps)
@@ -332,6 +332,17 @@ HARNESSES = {
                                 fixed=dict(n=5, ngap=2), budget_s=900)},
         bounds='selector = 4 (quick) / 5 (thorough) tokens over {a, b1, /, .} with a gap of none / one space '
                'before each, in 6 contexts (binding key, block header, @ value, % value, import, from-import)'),
+    'c03_selectors_ws': dict(
+        fn='c03_selectors',
+        anchors=['gin.config_parser:_parse_selector'],
+        smoke=[dict(ngap=4, ctx=0, n=3, t0=0, t1=2, t2=1, t3=0, t4=0, g1=0, g2=2, g3=0, g4=0),
+               dict(ngap=4, ctx=2, n=3, t0=0, t1=2, t2=1, t3=0, t4=0, g1=3, g2=0, g3=0, g4=0)],
+        tiers={'quick': dict(split=dict(ctx=list(range(6)), t0=list(range(4))),
+                             fixed=dict(n=3, ngap=4, t3=0, t4=0, g3=0, g4=0), budget_s=100),
+               'thorough': dict(split=dict(ctx=list(range(6)), t0=list(range(4)), t1=list(range(4))),
+                                fixed=dict(n=4, ngap=4, t4=0, g4=0), budget_s=900)},
+        bounds='selector = 3 (quick) / 4 (thorough) tokens with a gap of none / space / TAB / backslash-newline '
+               'continuation before each, in the same 6 contexts'),
 }
 RULE = 'one case per distinct (statement kinds, layout features) / (context, tokens, gaps) tuple; non-trivial: some non-default layout feature / at least two tokens'
 SOLVER_ROLE = ('certifies coverage: once the F-choices are made everything is concrete text, which the real tokenizer and parser '
